@@ -49,7 +49,9 @@ IsApp(c) ==
 
 (* ---- 3. the documented settings behave the same from code and from the environment ---- *)
 Settings == {"POLL_TIMER", "SERVICE_SECURE_false", "SERVICE_SECURE_true", "IN_APP_INCLUDE", "IN_APP_EXCLUDE",
-             "AUTH_BASIC", "SERVICE_URL", "APP_ROOT"}
+             "AUTH_BASIC", "SERVICE_URL", "APP_ROOT",
+             \* lists with an empty element (a trailing comma) or set but empty: an empty element names no prefix at all
+             "IN_APP_EXCLUDE_trailing_comma", "IN_APP_INCLUDE_empty", "IN_APP_EXCLUDE_empty"}
 Forms == {"code_typed", "code_text", "env_text"}     \* e.g. POLL_TIMER = 0.02 / "0.02" / DEEP_POLL_TIMER=0.02
 ConsumerCases == [setting : Settings, form : Forms]
 (* the behaviour class is a function of the setting only - never of the form it was given in *)
@@ -59,6 +61,9 @@ Behaviour(c) ==
       [] c.setting = "SERVICE_SECURE_true" -> "secure_channel"
       [] c.setting = "IN_APP_INCLUDE" -> "both_prefixes_are_app"
       [] c.setting = "IN_APP_EXCLUDE" -> "both_prefixes_are_excluded"
+      [] c.setting = "IN_APP_EXCLUDE_trailing_comma" -> "named_prefix_excluded_rest_of_root_app"
+      [] c.setting = "IN_APP_INCLUDE_empty" -> "only_root_is_app"
+      [] c.setting = "IN_APP_EXCLUDE_empty" -> "all_of_root_is_app"
       [] c.setting = "AUTH_BASIC" -> "basic_authorization_metadata"
       [] c.setting = "SERVICE_URL" -> "channel_to_that_url"
       [] c.setting = "APP_ROOT" -> "root_prefix_is_app"
